@@ -10,6 +10,8 @@ start != 0 and not np.isclose(start + step - start, step, atol=0)          `aran
 num = int(max(np.ceil((stop - start) / step), 0))                          `arangeNumF` (`none` = ZeroDivisionError)
 pair = np.asarray([start, start + step]); first, second = pair             `arangePlanF.first/second`
 res = first + idx.astype(comp) * (second - first); res[1] = second         `arangeElem f64Arith` (Model/Creation.lean)
+linspace: range_ = np.subtract(stop, start, dtype=dt); step = float(range_)/div   `linspacePlanF`
+linspace_block: y*step (or y/div*range when step == 0) + start; y[-1] = stop       `linspaceValuesF` (`linspaceElemG f64Arith`)
 Import-free (linked into the native driver).
 -/
 namespace Dask.Creation
@@ -52,6 +54,30 @@ def arangeValuesF (start : F64) (p : ArangeF) (cs : List Nat) : List (List F64) 
 def arangeSpecF (start : F64) (p : ArangeF) : List F64 :=
   let whole := arangeBlockG f64Arith p.first p.second 0 p.num
   if p.shifted then whole.map (fun v => add v start) else whole
+
+/-! ### `da.linspace` with float (or float-converted) endpoints in binary64 -/
+
+/-- total division for the block formula (the divisor `float(div)`, `div ≠ 0`, is never zero: `fdivTotal_ofInt`) -/
+def fdivTotal (x y : F64) : F64 := (SoftFloat.div x y).getD fzero
+
+/-- `range_ = np.subtract(stop, start, dtype=float64)`, `div = (num-1 if endpoint else num) or 1`,
+    `step = float(range_) / div` -/
+structure LinspaceF where
+  range : F64
+  divv : F64
+  step : F64
+  deriving Repr
+
+def linspacePlanF (start stop : F64) (num : Nat) (endpoint : Bool) : LinspaceF :=
+  let range := sub stop start
+  let d := linspaceDiv num endpoint
+  let divv := ofInt d
+  ⟨range, divv, fdivTotal range divv⟩
+
+/-- the computed blocks of `da.linspace(start, stop, num, endpoint, chunks=cs)` (float64 result) -/
+def linspaceValuesF (start stop : F64) (num : Nat) (endpoint : Bool) (cs : List Nat) : List (List F64) :=
+  let p := linspacePlanF start stop num endpoint
+  linspaceValuesG f64Arith fdivTotal start stop p.step p.range p.divv (decide (p.step.m = 0)) num endpoint cs
 
 /-! ### the block plan *before* the repair (kept to state what was wrong: `Props/C34.lean`, `old_arange_*`) -/
 
